@@ -2361,16 +2361,30 @@ impl Write for SummaryStream {
          * then go to the next input.
          */
         let input_string = match std::str::from_utf8(&self.buf) {
-            Ok(s) => {
-                if let Some(last) = s.rfind("\n\n") {
-                    s.get(0..last + 2).unwrap()
-                } else {
-                    return Ok(input.len());
+            Ok(s) => s,
+            Err(e) => match e.error_len() {
+                /*
+                 * A multi-byte character split across two writes is not an
+                 * error, only consider the valid text before it for now.
+                 */
+                None => match std::str::from_utf8(&self.buf[..e.valid_up_to()])
+                {
+                    Ok(s) => s,
+                    Err(e) => {
+                        return Err(io::Error::new(
+                            io::ErrorKind::InvalidData,
+                            e,
+                        ))
+                    }
+                },
+                Some(_) => {
+                    return Err(io::Error::new(io::ErrorKind::InvalidData, e))
                 }
-            }
-            Err(e) => {
-                return Err(io::Error::new(io::ErrorKind::InvalidData, e))
-            }
+            },
+        };
+        let input_string = match input_string.rfind("\n\n") {
+            Some(last) => input_string.get(0..last + 2).unwrap(),
+            None => return Ok(input.len()),
         };
 
         /*
